@@ -185,6 +185,12 @@ def customSet (gm : Bool) (fund : List Char) (amb : List (Char × List Char)) (g
       | some (_, ms) => fundMask fund ms
       | none => none
 
+/-- a custom alphabet has at least one fundamental state and no ambiguity code without members (what `StateAlphabet` can
+    express: a multistate with no member states denotes nothing); the driver refuses other descriptors -/
+def ColAlph.wf : ColAlph → Bool
+  | .table _ => true
+  | .custom _ fund amb => !fund.isEmpty && amb.all (fun a => !a.2.isEmpty)
+
 def colSymbolSet (col : ColAlph) (gapsAsMissing : Bool) (c : Char) : Option SS :=
   match col with
   | .table name => symbolSet name gapsAsMissing c
@@ -198,6 +204,14 @@ def rowOfCols : List ColAlph → Bool → List Char → Option Row
     | some v, some vs => some (v :: vs)
     | _, _ => none
   | _, _, _ => none
+
+/-- `taxon_state_sets_map(gaps_as_missing=g)` of a matrix given by its rows of symbols and its column alphabets -/
+def matrixOf (cols : List ColAlph) (g : Bool) : List (Nat × List Char) → Option Matrix
+  | [] => some []
+  | (b, cs) :: rest =>
+    match rowOfCols cols g cs, matrixOf cols g rest with
+    | some row, some m => some ((b, row) :: m)
+    | _, _ => none
 
 /-! ### root positions: sliding the (degree-two) root of a bifurcating tree onto a neighbouring edge -/
 
